@@ -300,11 +300,14 @@ def _linear_task(task, out):
                 _fill(fm.bias, 3)
             for aname in ACTS:
                 for qinput in (False, True):
-                    for bshape in ((2,), (2, 3)):
-                        c = [fin, fout, bias, aname, qinput, list(bshape)]
+                    for bshape, amp in (((2,), 1.0), ((2, 3), 1.0), ((2,), 700.0)):
+                        c = [fin, fout, bias, aname, qinput, list(bshape), amp]
                         if only and only != c:
                             continue
-                        x = _input(bshape + (fin,), dt)
+                        x = (_input(bshape + (fin,), dt).to(torch.float64) * amp).to(dt)
+                        with torch.no_grad():
+                            if not bool(torch.isfinite(fm(x)).all()):
+                                continue  # the float module itself overflows
                         fields = {"kind": "linear", "weights": wname, "activations": aname, "dtype": dtname, "qinput": qinput}
                         _behaviour(fm, x, wname, aname, dtname, qinput, f"Linear({fin},{fout},bias={bias}) w={wname} a={aname} {dtname} qinput={qinput} batch={bshape}", dict(task, only=c), fields, out, fin)
 
